@@ -431,3 +431,191 @@ class C02(ProverCheck):
 
 
 E.register(C02())
+
+
+# ---------------------------------------------------------------------------------------
+def _boundary(rng, center, bl, extra=()):
+    vals = {center - 1, center, center + 1, center + (1 << (bl - 1)), center - (1 << (bl - 1)),
+            center + (1 << bl) - 1, center + (1 << bl), center - (1 << bl), center + (1 << (bl - 1)) - 1,
+            center - (1 << (bl - 1)) - 1, center + (1 << bl) + 1}
+    vals.update(extra)
+    vals = sorted(vals)
+    rng.shuffle(vals)
+    return vals
+
+
+class C03(ProverCheck):
+    name = "C03"
+    prop = "C03"
+    budget = {"quick": 500, "thorough": 20000}
+    kinds = ["lt", "le", "eq", "ne", "gt", "ge", "zero", "nonzero", "positive", "positive_n", "range",
+             "range_secret", "tobool", "bits_n", "bool_cmp", "fxp_cmp", "fxp_range", "gt", "lt", "positive_n",
+             "range"]
+    rule = ("one assertion or type declaration per plan (assert_lt/le/eq/ne/gt/ge on integer, boolean and "
+            "fixed-point operands with secret and constant right-hand sides, assert_zero/nonzero, "
+            "assert_positive with and without an explicit width, assert_range with constant and secret "
+            "bounds, LinCombBool(x), to_bits(n)), executed on up to 12 operand vectors placed on both sides "
+            "of the relation (x-1, x, x+1, +-2^(b-1), 2^b-1, 2^b, ...). Per vector: run with checks on "
+            "(accepted / rejected by the run-time check); rejected => run again as a prover who removed the "
+            "checks (ignore_errors) and, when the honest hints do not already satisfy the circuit, lie on "
+            "every hint wire with forward re-derivation; accepted => trace must be satisfied. "
+            "non-trivial = distinct (plan, vector) pairs that reached a verdict")
+
+    def gen(self, rng, i, tier):
+        cfg = self.cfg(rng)
+        cfg["fxp"] = True
+        bl = cfg["bitlength"]
+        kind = self.kinds[i % len(self.kinds)]
+        A = {"ref": 0, "t": "I"}
+        Bv = {"ref": 1, "t": "I"}
+        inputs = [{"kind": "priv", "t": "I", "v": 0}]
+        vectors = []
+        secret_rhs = rng.random() < 0.5
+        if kind in ASSERT_CMP_KINDS:
+            b = rng.choice([0, 1, 2, 3, -1, (1 << (bl - 1)) - 1, -(1 << (bl - 1))])
+            if secret_rhs:
+                inputs.append({"kind": rng.choice(["priv", "pub"]), "t": "I", "v": b})
+                stmt = {"s": "assert", "kind": kind, "args": [A, Bv]}
+                vectors = [[a, b] for a in _boundary(rng, b, bl)]
+            else:
+                stmt = {"s": "assert", "kind": kind, "args": [A, {"k": b, "t": "I"}]}
+                vectors = [[a] for a in _boundary(rng, b, bl)]
+        elif kind in ("zero", "nonzero"):
+            stmt = {"s": "assert", "kind": kind, "args": [A]}
+            vectors = [[a] for a in (0, 1, -1, 2, (1 << bl), -(1 << bl))]
+        elif kind in ("positive", "positive_n", "bits_n"):
+            n = None if kind == "positive" else rng.randrange(1, bl + 3)
+            if kind == "bits_n":
+                stmt = {"s": "let", "e": {"call": "bits_roundtrip", "args": [A], "n": n, "t": "I"}}
+            else:
+                stmt = {"s": "assert", "kind": "positive", "args": [A], "bits": n}
+            w = n if n is not None else bl
+            vectors = [[a] for a in sorted({-1, 0, 1, (1 << w) - 1, 1 << w, (1 << w) + 1, (1 << bl) - 1, 1 << bl,
+                                            (1 << bl) + 1, (1 << (w - 1)) if w > 0 else 0, -(1 << w)})]
+        elif kind in ("range", "range_secret"):
+            lo = rng.choice([0, 1, -2, 2])
+            hi = lo + rng.choice([0, 1, 2, 5, (1 << bl) - 1])
+            ext = [lo - 1, lo, lo + 1, hi - 1, hi, hi + 1]
+            if kind == "range_secret":
+                inputs += [{"kind": "priv", "t": "I", "v": lo}, {"kind": "priv", "t": "I", "v": hi}]
+                stmt = {"s": "assert", "kind": "range", "args": [A, {"ref": 1, "t": "I"}, {"ref": 2, "t": "I"}]}
+                vectors = [[a, lo, hi] for a in ext] + [[lo, lo, lo - 1], [lo, lo + 1, lo]]
+            else:
+                stmt = {"s": "assert", "kind": "range", "args": [A, {"k": lo, "t": "I"}, {"k": hi, "t": "I"}]}
+                vectors = [[a] for a in ext]
+        elif kind == "tobool":
+            stmt = {"s": "let", "e": {"call": "tobool", "args": [A], "t": "B"}}
+            vectors = [[0], [1], [2], [-1]]
+        elif kind == "bool_cmp":
+            inputs = [{"kind": "priv", "t": "B", "v": 0}, {"kind": "priv", "t": "B", "v": 0}]
+            stmt = {"s": "assert", "kind": rng.choice(list(ASSERT_CMP_KINDS)),
+                    "args": [{"ref": 0, "t": "B"}, {"ref": 1, "t": "B"}]}
+            vectors = [[0, 0], [0, 1], [1, 0], [1, 1]]
+        elif kind in ("fxp_cmp", "fxp_range"):
+            res = cfg["resolution"]
+            u = 1.0 / (1 << res)
+            b = rng.choice([0.0, 1.0, 1.5, -0.5, 2.0])
+            b = round(b / u) * u
+            inputs = [{"kind": "priv", "t": "F", "v": 0.0}]
+            if kind == "fxp_cmp":
+                inputs.append({"kind": "priv", "t": "F", "v": b})
+                stmt = {"s": "assert", "kind": rng.choice(list(ASSERT_CMP_KINDS)),
+                        "args": [{"ref": 0, "t": "F"}, {"ref": 1, "t": "F"}]}
+                vectors = [[b + d * u, b] for d in (-2, -1, 0, 1, 2, 1 << bl, -(1 << bl))]
+            else:
+                hi = b + 2 * u
+                stmt = {"s": "assert", "kind": "range", "args": [{"ref": 0, "t": "F"}, {"k": b, "t": "F"},
+                                                                  {"k": hi, "t": "F"}]}
+                vectors = [[b + d * u] for d in (-1, 0, 1, 2, 3)]
+        plan = {"cfg": cfg, "inputs": inputs, "body": [stmt]}
+        return {"plan": plan, "vectors": vectors[:12], "seed": rng.randrange(1 << 30)}
+
+    def stmt_desc(self, plan):
+        s = plan["body"][0]
+
+        def kd(x):
+            return "k" if "k" in x else x["t"]
+        if s["s"] == "assert":
+            d = {"op": "assert_" + s["kind"], "kinds": ",".join(kd(a) for a in s["args"])}
+            if s.get("bits") is not None:
+                d["width"] = "explicit"
+            return d
+        e = s["e"]
+        d = {"op": e["call"], "kinds": ",".join(kd(a) for a in e["args"])}
+        if e.get("n") is not None:
+            d["width"] = "explicit"
+        return d
+
+    def run(self, case):
+        plan = case["plan"]
+        rng = _random.Random(case["seed"])
+        bl = plan["cfg"]["bitlength"]
+        desc = self.stmt_desc(plan)
+        viol, probes, faults = [], {}, {}
+        verdicts = []
+        events = 0
+        ntl = []
+
+        def add(oracle, mode, detail):
+            s = dict(desc)
+            s["mode"] = mode
+            if not any(v["oracle"] == oracle and v["site"] == s for v in viol):
+                viol.append({"property": "C03", "oracle": oracle, "site": s, "detail": detail})
+
+        for vec in case["vectors"]:
+            checked = PV.run_plan(plan, inputs=vec)
+            events += checked.steps
+            if checked.outcome == "completed" and not checked.caught:
+                accepted = True
+            elif checked.outcome.split(":")[-1] in ("AssertionError", "ValueError"):
+                accepted = False
+            else:
+                probes["vector_other_exception"] = probes.get("vector_other_exception", 0) + 1
+                verdicts.append((vec, checked.outcome))
+                continue
+            if accepted:
+                t = PV.Trace(checked)
+                bad = t.unsat(t.base_assignment())
+                probes["accepted_vectors"] = probes.get("accepted_vectors", 0) + 1
+                if bad:
+                    add("accepted_but_unsatisfied", "honest",
+                        "operands %r accepted by the run-time check, constraints %r not satisfied" % (vec, bad[:3]))
+                verdicts.append((vec, "accepted", not bad))
+                ntl.append(vec)
+                continue
+            probes["rejected_vectors"] = probes.get("rejected_vectors", 0) + 1
+            d = PV.run_plan(plan, inputs=vec, nocheck=True)
+            events += d.steps
+            if d.outcome != "completed" or d.caught:
+                # the library raises even with checks off (e.g. LinCombBool of a non-boolean): the prover
+                # edits the operand wire of an accepted execution instead
+                probes["nocheck_run_raised"] = probes.get("nocheck_run_raised", 0) + 1
+                verdicts.append((vec, "rejected", "nocheck-raised"))
+                continue
+            t = PV.Trace(d)
+            atk = PV.Attack(t, PV.plan_consts(plan))
+            faults["nocheck"] = faults.get("nocheck", 0) + 1
+            if not t.unsat(atk.base):
+                add("assertion_not_enforced", "honest-hints",
+                    "operands %r rejected at run time (%s) but the hints the library computes with checks off "
+                    "satisfy all %d constraints" % (vec, checked.outcome_msg[:60], len(t.cons)))
+                verdicts.append((vec, "rejected", "sat-honest"))
+                ntl.append(vec)
+                continue
+            found = PV.search_sat(atk, rng, bl)
+            faults["lie-wire"] = faults.get("lie-wire", 0) + atk.evals + atk.repairs
+            if found is not None:
+                add("assertion_not_enforced", "wire",
+                    "operands %r rejected at run time but hint lies %r satisfy all %d constraints" % (
+                        vec, found[0], len(t.cons)))
+            verdicts.append((vec, "rejected", "sat-lie" if found else "unsat"))
+            ntl.append(vec)
+        return {"violations": viol, "digest": E.sha((verdicts, [v["detail"] for v in viol])),
+                "nontrivial": None, "nontrivial_list": [E.sha((plan["body"], plan["cfg"]["bitlength"], v))
+                                                        for v in ntl],
+                "events": events + faults.get("lie-wire", 0), "faults": faults, "probes": probes,
+                "sigs": [E.sha((desc, v[1:])) for v in verdicts], "outcome": verdicts[:4]}
+
+
+ASSERT_CMP_KINDS = ("lt", "le", "eq", "ne", "gt", "ge")
+E.register(C03())
